@@ -377,7 +377,7 @@ pub fn mutated_request(rng: &mut Rng, base_target: &str, buf: usize) -> (&'stati
     if rng.chance(1, 4) {
         return ("positional_mutation", positional_mutation(rng, t));
     }
-    match rng.below(52) {
+    match rng.below(54) {
         0 => ("valid_get", get(t)),
         1 => ("valid_head", req("HEAD", t, &[], b"")),
         2 => ("valid_options", req("OPTIONS", t, &[("Origin", "http://a.example"), ("Access-Control-Request-Method", "GET")], b"")),
@@ -572,6 +572,26 @@ v
                 _ => format!("{}{}", base, evil),
             };
             ("target_control_chars", format!("{} {} HTTP/1.1\r\nHost: h\r\n\r\n", rng.pick(&["GET", "HEAD", "OPTIONS"]), t2).into_bytes())
+        }
+        52 => {
+            // two requests written back to back (a pipelining client), or a request followed by junk
+            let mut v = match rng.below(3) { 0 => get(t), 1 => req("HEAD", t, &[], b""), _ => req("POST", FORM_URLENC, &[("Content-Type", "application/x-www-form-urlencoded"), ("Content-Length", "3")], b"a=1") };
+            match rng.below(3) {
+                0 => v.extend_from_slice(&get("/one.txt")),
+                1 => v.extend_from_slice(&get(t)),
+                _ => v.extend_from_slice(b"\0\0garbage after the request\r\n\r\n"),
+            }
+            ("pipelined", v)
+        }
+        53 => {
+            // keep-alive and upgrade negotiation a one-request-per-connection server has to decline quietly
+            let hs: &[(&str, &str)] = match rng.below(4) {
+                0 => &[("Connection", "keep-alive"), ("Keep-Alive", "timeout=5, max=1000")],
+                1 => &[("Connection", "Upgrade"), ("Upgrade", "websocket"), ("Sec-WebSocket-Key", "dGhlIHNhbXBsZSBub25jZQ=="), ("Sec-WebSocket-Version", "13")],
+                2 => &[("Connection", "Upgrade, HTTP2-Settings"), ("Upgrade", "h2c"), ("HTTP2-Settings", "AAMAAABkAARAAAAAAAIAAAAA")],
+                _ => &[("Expect", "100-continue"), ("Content-Length", "5")],
+            };
+            ("connection_negotiation", req(*rng.pick(&["GET", "POST", "PUT"]), t, hs, b""))
         }
         51 => {
             let (n, v) = *rng.pick(super::real::CONDITIONAL_HEADERS);
